@@ -63,13 +63,91 @@ def ofCyCount1 (q : Cy.Query) : Option S1c.Query :=
   | _, _ => none
 
 /-- THE MODEL TRANSLATOR over the proved stages S1, S1c (count over a node pattern), S2b, S2c; parameters: the join-order choices and
-whether the count-store fast path is on -/
-def tr4F (flipOf : S2.Query → Bool) (flipCh : Ch.Query → Bool) (fast : Bool) (km : KindMap) (q : Cy.Query) : Option (Sql.Stmt × List (String × Val)) :=
-  match tr3F flipOf flipCh km q with
+whether the count-store fast path / projection pruning are on -/
+def tr4F (flipOf : S2.Query → Bool) (flipCh : Ch.Query → Bool) (fast prune : Bool) (km : KindMap) (q : Cy.Query) : Option (Sql.Stmt × List (String × Val)) :=
+  match tr3F flipOf flipCh prune km q with
   | some r => some r
   | none =>
     match ofCyCount1 q with
     | some s => (s.trWith km fast).map (fun st => (st, []))
+    | none => none
+
+end Dawgs.C01
+
+/-
+Stage S2n: THE COUNT AGGREGATE OVER ONE DIRECTED HOP
+
+  MATCH (a[:K…])-[r[:T|…]]->(b[:K…]) [WHERE c1 AND … AND cn] RETURN count(x) [AS c]        x one of a, r, b; conjuncts as in stage S2b
+
+The statement is the hop frame of stage S2b (either join order; pruned to the bindings that are read — x and the variables of the WHERE
+conjuncts — or complete) followed by `select count(s0.<x>)::int8 [as c] from s0`.
+-/
+namespace Dawgs.C01.S2n
+open Dawgs
+
+structure Query where
+  a : String
+  r : String
+  b : String
+  akinds : List String
+  rkinds : List String
+  bkinds : List String
+  wh : List (S2.Ref × S1.Pred)
+  x : S2.Ref
+  alias : Option String
+deriving Repr, DecidableEq, Inhabited
+
+/-- the stage-S2b query with the same MATCH … WHERE, returning the counted variable (its frame and its matches are reused) -/
+def Query.base (q : Query) : S2.Query := ⟨q.a, q.r, q.b, q.akinds, q.rkinds, q.bkinds, q.wh, [.ent q.x none]⟩
+
+def Query.toCy (q : Query) : Cy.Query :=
+  { parts := []
+    clauses := q.base.toCy.clauses
+    ret := { distinct := false, all := false, items := [⟨.fn "count" false [.var (q.base.name q.x)], q.alias⟩], orderBy := [], skip := none, limit := none } }
+
+def Query.trWith (km : KindMap) (q : Query) (flip prune : Bool) : Option Sql.Stmt :=
+  if !q.base.wf then none else
+  match S2.kindIds? km q.akinds, S2.kindIds? km q.rkinds, S2.kindIds? km q.bkinds,
+        S2.predsE km "n0" false (q.base.preds .a), S2.predsE km "e0" true (q.base.preds .r), S2.predsE km "n1" false (q.base.preds .b) with
+  | some ka, some kr, some kb, some pa, some pr, some pb =>
+    let ja : Sql.Join := .mk .inner (.table ["node"] (some "n0")) (some (S2.joinOnC "n0" "start_id" (S2.both pa (S2.nodeKindsE "n0" ka))))
+    let jb : Sql.Join := .mk .inner (.table ["node"] (some "n1")) (some (S2.joinOnC "n1" "end_id" (S2.both pb (S2.nodeKindsE "n1" kb))))
+    let joins := if flip then [jb, ja] else [ja, jb]
+    let wh : Option Sql.Expr := S2.both pr (kr.map (fun ids => .bin "=" (S2.col "e0" "kind_id") (.anyOf (S2.kindsLit ids))))
+    some (.query (.mk false
+      [.mk "s0" none none (Sql.Query.simple (.select false
+        (S2.frameProj (!prune || q.base.reads .r) (!prune || q.base.reads .a) (!prune || q.base.reads .b))
+        [.mk (.table ["edge"] (some "e0")) joins] wh [] none))]
+      (.select false [S1c.countItem q.alias (S2.col "s0" (S2.frameName q.x))] [.mk (.table ["s0"] none) []] none [] none) [] none none))
+  | _, _, _, _, _, _ => none
+
+end Dawgs.C01.S2n
+
+namespace Dawgs.C01
+open Dawgs
+
+/-- the S2n reading of a parsed query, if it has one -/
+def ofCyCount2 (q : Cy.Query) : Option S2n.Query :=
+  match q.parts, q.clauses with
+  | [], [.match false [.mk none false false (.mk (some a) akinds []) [(.mk (some r) rkinds .out none [], .mk (some b) bkinds [])]] wh] =>
+    if q.ret.distinct || q.ret.all || !q.ret.orderBy.isEmpty || q.ret.skip.isSome || q.ret.limit.isSome then none else do
+    let cs ← whereOf2 a r b wh
+    match q.ret.items with
+    | [⟨.fn "count" false [.var v], al⟩] => do
+      let x ← refOf2 a r b v
+      let s : S2n.Query := ⟨a, r, b, akinds, rkinds, bkinds, cs, x, al⟩
+      if s.base.wf then pure s else none
+    | _ => none
+  | _, _ => none
+
+/-- THE MODEL TRANSLATOR over all proved stages: S1, S1c, S2b, S2c and S2n (count over a hop) -/
+def tr5F (flipOf : S2.Query → Bool) (flipCh : Ch.Query → Bool) (flipN : S2n.Query → Bool) (fast prune : Bool) (km : KindMap) (q : Cy.Query) :
+    Option (Sql.Stmt × List (String × Val)) :=
+  match tr4F flipOf flipCh fast prune km q with
+  | some r => some r
+  | none =>
+    match ofCyCount2 q with
+    | some s => (s.trWith km (flipN s) prune).map (fun st => (st, []))
     | none => none
 
 end Dawgs.C01
